@@ -589,3 +589,95 @@ pub mod hashbrown {
         }
     }
 }
+
+// ------------------------------------------------------------------------------------------------
+// rustc_hash::FxHashMap (= std HashMap) as used by `table.rs` for the per-ingredient page pool
+// ------------------------------------------------------------------------------------------------
+#[derive(Debug, Clone)]
+pub struct FxHashMap<K, V> {
+    v: Vec<(K, V)>,
+}
+impl<K, V> Default for FxHashMap<K, V> {
+    fn default() -> Self {
+        FxHashMap { v: Vec::new() }
+    }
+}
+pub struct MapEntry<'a, K, V> {
+    map: &'a mut FxHashMap<K, V>,
+    key: K,
+    idx: Option<usize>,
+}
+impl<K: PartialEq, V> FxHashMap<K, V> {
+    fn position(&self, k: &K) -> Option<usize> {
+        let mut i = 0;
+        while i < self.v.len() {
+            if self.v[i].0 == *k {
+                return Some(i);
+            }
+            i += 1;
+        }
+        None
+    }
+    pub fn get(&self, k: &K) -> Option<&V> {
+        self.position(k).map(|i| &self.v[i].1)
+    }
+    pub fn get_mut(&mut self, k: &K) -> Option<&mut V> {
+        match self.position(k) {
+            Some(i) => Some(&mut self.v[i].1),
+            None => None,
+        }
+    }
+    /// "If the map did not have this key present, None is returned. If the map did have this key present,
+    /// the value is updated, and the old value is returned."
+    pub fn insert(&mut self, k: K, v: V) -> Option<V> {
+        match self.position(&k) {
+            Some(i) => Some(std::mem::replace(&mut self.v[i].1, v)),
+            None => {
+                self.v.push((k, v));
+                None
+            }
+        }
+    }
+    pub fn remove(&mut self, k: &K) -> Option<V> {
+        self.position(k).map(|i| self.v.swap_remove(i).1)
+    }
+    pub fn contains_key(&self, k: &K) -> bool {
+        self.position(k).is_some()
+    }
+    pub fn entry(&mut self, key: K) -> MapEntry<'_, K, V> {
+        let idx = self.position(&key);
+        MapEntry { map: self, key, idx }
+    }
+    pub fn len(&self) -> usize {
+        self.v.len()
+    }
+    pub fn is_empty(&self) -> bool {
+        self.v.is_empty()
+    }
+}
+impl<'a, K, V> MapEntry<'a, K, V> {
+    /// "Ensures a value is in the entry by inserting the default value if empty, and returns a mutable
+    /// reference to the value in the entry."
+    pub fn or_default(self) -> &'a mut V
+    where
+        V: Default,
+    {
+        self.or_insert_with(V::default)
+    }
+    pub fn or_insert_with(self, f: impl FnOnce() -> V) -> &'a mut V {
+        match self.idx {
+            Some(i) => &mut self.map.v[i].1,
+            None => {
+                self.map.v.push((self.key, f()));
+                &mut self.map.v.last_mut().unwrap().1
+            }
+        }
+    }
+}
+impl<K, V> IntoIterator for FxHashMap<K, V> {
+    type Item = (K, V);
+    type IntoIter = std::vec::IntoIter<(K, V)>;
+    fn into_iter(self) -> Self::IntoIter {
+        self.v.into_iter()
+    }
+}
